@@ -11,7 +11,7 @@ from .._backends.base import SOCKET_OPTION, AsyncNetworkBackend, AsyncNetworkStr
 from .._exceptions import ConnectError, ConnectTimeout
 from .._models import Origin, Request, Response
 from .._ssl import default_ssl_context
-from .._synchronization import AsyncLock
+from .._synchronization import AsyncLock, AsyncShieldCancellation
 from .._trace import Trace
 from .http11 import AsyncHTTP11Connection
 from .interfaces import AsyncConnectionInterface
@@ -152,9 +152,17 @@ class AsyncHTTPConnection(AsyncConnectionInterface):
                         or self._origin.host.decode("ascii"),
                         "timeout": timeout,
                     }
-                    async with Trace("start_tls", logger, request, kwargs) as trace:
-                        stream = await stream.start_tls(**kwargs)
-                        trace.return_value = stream
+                    try:
+                        async with Trace("start_tls", logger, request, kwargs) as trace:
+                            tls_stream = await stream.start_tls(**kwargs)
+                            trace.return_value = tls_stream
+                    except BaseException as exc:
+                        # The network backends close the stream if the handshake
+                        # fails, but not if it is cancelled.
+                        with AsyncShieldCancellation():
+                            await stream.aclose()
+                        raise exc
+                    stream = tls_stream
                 return stream
             except (ConnectError, ConnectTimeout):
                 if retries_left <= 0:
